@@ -5,7 +5,24 @@
 # The harness stringifies it directly and through four templates, re-parses it, and decodes the text with
 # encoding/json as a Go-side oracle; Run/Judge_C12.v compares every text with the Gallina printer
 # encode_go and reads Go's own text back with the Gallina reader.
+#
+# About a third of the cases carry a HISTORY as well (case["plan"], realised as case["hist"]): JSON.parse and
+# JSON.stringify must be functions of their argument whatever the process did before.  A history is a sequence
+# of segments run in ONE harness process (each history case gets a process of its own, so that a replay or a
+# shrink candidate never sees state left behind by another case):
+#   render segments  Engine.Render of a template written for the case (parse a copy of the page data or of an
+#                    earlier copy, assign into it / push, pop, shift, unshift, splice on its arrays at any depth,
+#                    write JSON.stringify / json of any variable, parse the same text again ...), on one of two
+#                    engines, the same template possibly rendered again, the page data being the same Go value
+#                    or an equal one built anew
+#   api segments     the same steps done by a Go caller through the exported functions; its objects stay alive
+#                    between segments
+# The abstract history (HConv / HParse / HMut / HOut, Models/JsonHist.v) goes to the judge together with the
+# texts Go wrote; which texts must be THE text of the data is decided in Coq (pristine_run), not here.
+import copy
 import math
+import re
+from concurrent.futures import ThreadPoolExecutor
 from common import *
 
 TWO53 = 2 ** 53
@@ -322,6 +339,428 @@ def gen_case(rng, tier):
     return gen_value(rng, rng.choice([1, 2, 3, 4, 6 if not big else 10]), theme, rng.choice([3, 5, 8, 12]))
 
 
+
+# ---------------------------------------------------------------- histories (one process, many calls)
+
+IDENT = re.compile(rb"^[a-z][a-zA-Z0-9]*$")
+JS_WORDS = {b"break", b"case", b"catch", b"continue", b"debugger", b"default", b"delete", b"do", b"else", b"finally", b"for",
+            b"function", b"if", b"in", b"instanceof", b"new", b"return", b"switch", b"this", b"throw", b"try", b"typeof",
+            b"var", b"void", b"while", b"with", b"class", b"const", b"enum", b"export", b"extends", b"import", b"super",
+            b"null", b"true", b"false", b"let", b"static", b"yield", b"range", b"x", b"w"}
+
+
+def ident_safe(kb):
+    return bool(IDENT.match(kb)) and kb not in JS_WORDS
+
+
+def shape_of(v):
+    """typed value -> mutable shape: ['map', {key bytes: shape}] | ['arr', [shape]] | ['leaf']"""
+    v = expand(v)
+    if v["t"] == "map":
+        return ["map", {unhx(k): shape_of(x) for k, x in v["v"]}]
+    if v["t"] == "arr":
+        return ["arr", [shape_of(x) for x in v["v"]]]
+    if v["t"] == "nilarr":
+        return ["arr", []]
+    if v["t"] == "nilmap":
+        return ["map", {}]
+    return ["leaf"]
+
+
+def containers(sh, path=(), acc=None, depth=0):
+    """all (path, shape) of containers reachable without walking through the empty key"""
+    if acc is None:
+        acc = []
+    if sh[0] == "leaf" or depth > 6:
+        return acc
+    acc.append((path, sh))
+    if sh[0] == "map":
+        for k, x in list(sh[1].items())[:8]:
+            if k != b"":
+                containers(x, path + ({"k": hx(k)},), acc, depth + 1)
+    else:
+        for i, x in list(enumerate(sh[1]))[:8]:
+            containers(x, path + ({"i": i},), acc, depth + 1)
+    return acc
+
+
+def shape_walk(sh, path):
+    for s in path:
+        if "k" in s:
+            if sh[0] != "map" or unhx(s["k"]) not in sh[1]:
+                return None
+            sh = sh[1][unhx(s["k"])]
+        else:
+            if sh[0] != "arr" or not (0 <= s["i"] < len(sh[1])):
+                return None
+            sh = sh[1][s["i"]]
+    return sh
+
+
+def shape_apply(sh, op):
+    """False when the op does not fit (wrong receiver / splice beyond the end)"""
+    t = shape_walk(sh, op["p"])
+    if t is None:
+        return False
+    o = op["o"]
+    if o == "set":
+        if t[0] != "map":
+            return False
+        t[1][unhx(op["k"])] = shape_of(op["v"])
+        return True
+    if t[0] != "arr":
+        return False
+    l = t[1]
+    if o == "push":
+        l.append(shape_of(op["v"]))
+    elif o == "unshift":
+        l.insert(0, shape_of(op["v"]))
+    elif o == "pop":
+        if l:
+            l.pop()
+    elif o == "shift":
+        if l:
+            l.pop(0)
+    elif o == "splice":
+        if op["n"] > len(l):
+            return False
+        del l[op["n"]:]
+    else:
+        return False
+    return True
+
+
+def gen_op(rng, sh, hostile):
+    cs = containers(sh)
+    if not cs:
+        return None
+    # shallow receivers are more likely, but every depth is reachable
+    cs.sort(key=lambda c: len(c[0]))
+    path, t = cs[min(int(rng.expovariate(0.7)), len(cs) - 1)] if rng.random() < 0.6 else rng.choice(cs)
+    op = {"p": [dict(s) for s in path], "dot": [rng.random() < 0.5 for _ in path], "nav": rng.random() < 0.4}
+    if t[0] == "map":
+        op["o"] = "set"
+        keys = list(t[1].keys())
+        r = rng.random()
+        if keys and r < 0.3:
+            k = rng.choice(keys)                     # overwrite a member
+        elif hostile and r < 0.6:
+            k = gen_key(rng, "upper")
+        else:
+            k = gen_key(rng, "dom")
+        op["k"] = hx(k)
+        op["kdot"] = rng.random() < 0.5
+        op["v"] = gen_value(rng, rng.choice([0, 0, 1, 2]), None, 3)
+    else:
+        n = len(t[1])
+        o = rng.choice(["push", "push", "push", "unshift", "pop", "shift", "splice"])
+        op["o"] = o
+        if o in ("push", "unshift"):
+            op["v"] = gen_value(rng, rng.choice([0, 0, 1, 2]), None, 3)
+        elif o == "splice":
+            op["n"] = rng.randint(0, n)
+    return op
+
+
+def gen_program(rng, pool, new_id, xid, hostile, closing):
+    """steps over the variables of pool (id -> shape; xid = the page data, already bound); new ids from new_id()"""
+    steps = []
+    touched = set()
+
+    def parse_from(u):
+        v = new_id()
+        pool[v] = copy.deepcopy(pool[u])
+        steps.append({"i": "parse", "v": v, "u": u, "syn": rng.randrange(4)})
+        return v
+
+    def mutate(v, n):
+        for _ in range(n):
+            op = gen_op(rng, pool[v], hostile)
+            if op is None or not shape_apply(pool[v], op):
+                return
+            steps.append({"i": "mut", "v": v, "op": op})
+            touched.add(v)
+
+    def out(v):
+        steps.append({"i": "out", "v": v, "syn": rng.randrange(2)})
+
+    def some_var():
+        ids = sorted(pool)
+        return xid if rng.random() < 0.6 else rng.choice(ids)
+
+    for _ in range(rng.choice([1, 2, 2, 3, 3, 4])):
+        r = rng.random()
+        if r < 0.55:          # a working copy that is changed
+            v = parse_from(some_var())
+            mutate(v, rng.choice([0, 1, 1, 2, 3]))
+            if rng.random() < 0.8:
+                out(v)
+        elif r < 0.72:        # read the same text again
+            out(parse_from(some_var()))
+        elif r < 0.86:        # write a value that is already there
+            out(some_var())
+        else:                 # change a value that is already there (the converted page data included)
+            v = rng.choice(sorted(pool))
+            mutate(v, rng.choice([1, 1, 2]))
+            out(v)
+    if closing:               # ... and whatever happened: the text of the data, parsed now, is the data
+        out(parse_from(xid))
+        if rng.random() < 0.4:
+            out(xid)
+    return steps
+
+
+def gen_plan(rng, d, hostile):
+    dshape = shape_of(d)
+    plan = {"progs": [], "segs": []}
+    api_pool = {}
+    counter = [0]             # api variables are numbered 1..99; a render's variables 100*k + local number
+
+    def new_api():
+        counter[0] += 1
+        return counter[0]
+
+    nseg = rng.choice([1, 2, 2, 2, 3, 3, 4])
+    for si in range(nseg):
+        last = si == nseg - 1
+        r = rng.random()
+        if r < 0.25:
+            xid = new_api()
+            api_pool[xid] = copy.deepcopy(dshape)
+            steps = [{"i": "conv", "v": xid}] + gen_program(rng, api_pool, new_api, xid, hostile, last or rng.random() < 0.5)
+            plan["segs"].append({"k": "api", "steps": steps, "rebuild": rng.random() < 0.15})
+        else:
+            if plan["progs"] and rng.random() < 0.3:
+                pi = rng.randrange(len(plan["progs"]))       # the same template once more
+            else:
+                pool = {0: copy.deepcopy(dshape)}
+                loc = [0]
+
+                def new_loc():
+                    loc[0] += 1
+                    return loc[0]
+                plan["progs"].append(gen_program(rng, pool, new_loc, 0, hostile, last or rng.random() < 0.5))
+                pi = len(plan["progs"]) - 1
+            plan["segs"].append({"k": "render", "e": 1 if rng.random() < 0.3 else 0, "prog": pi, "rebuild": rng.random() < 0.15})
+    return plan
+
+
+def plan_valid(plan, d):
+    """every variable bound before use, every mutation fits (the generator's own bookkeeping, again)"""
+    dshape = shape_of(d)
+    api_pool = {}
+
+    def run(steps, pool):
+        for st in steps:
+            if st["i"] == "conv":
+                pool[st["v"]] = copy.deepcopy(dshape)
+            elif st["i"] == "parse":
+                if st["u"] not in pool or st["v"] in pool:
+                    return False
+                pool[st["v"]] = copy.deepcopy(pool[st["u"]])
+            elif st["i"] == "mut":
+                if st["v"] not in pool or not shape_apply(pool[st["v"]], st["op"]):
+                    return False
+            elif st["v"] not in pool:
+                return False
+        return True
+    for seg in plan["segs"]:
+        if seg["k"] == "api":
+            if not run(seg["steps"], api_pool):
+                return False
+        else:
+            if not (0 <= seg["prog"] < len(plan["progs"])):
+                return False
+            if not run(plan["progs"][seg["prog"]], {0: copy.deepcopy(dshape)}):
+                return False
+    return True
+
+
+class _W:
+    """the values a template reaches through the page datum w (keys, path members, values: never spelled in JS)"""
+
+    def __init__(self):
+        self.slots = {}
+
+    def put(self, prefix, tv):
+        name = "%s%d" % (prefix, len(self.slots))
+        self.slots[name] = tv
+        return "w." + name
+
+
+def js_of_program(steps, w):
+    """JavaScript lines [{'js','out'}] of a render segment; variable 0 is x"""
+    lines = []
+    tmp = [0]
+    x_touched = False
+
+    def name(v):
+        return "x" if v == 0 else "v%d" % v
+
+    def fresh(prefix):
+        tmp[0] += 1
+        return "%s%d" % (prefix, tmp[0])
+
+    for st in steps:
+        if st["i"] == "parse":
+            src = "JSON.stringify(%s)" % name(st["u"])
+            if st["u"] == 0 and not x_touched and st["syn"] == 0:
+                src = "w.t"                                   # the same text, handed in as a Go string
+            lines.append({"js": "var %s = JSON.parse(%s)" % (name(st["v"]), src), "out": False})
+        elif st["i"] == "out":
+            lines.append({"js": ("json(%s)" if st["syn"] else "JSON.stringify(%s)") % name(st["v"]), "out": True})
+        else:
+            op = st["op"]
+            if st["v"] == 0:
+                x_touched = True
+            expr = name(st["v"])
+            pure = True            # identifier followed by .name only
+            for sel, dot in zip(op["p"], op["dot"]):
+                if "k" in sel and dot and ident_safe(unhx(sel["k"])):
+                    expr += "." + unhx(sel["k"]).decode()
+                elif "k" in sel:
+                    expr += "[%s]" % w.put("p", t_str(unhx(sel["k"])))
+                    pure = False
+                else:
+                    expr += "[%d]" % sel["i"]
+                    pure = False
+            if op["o"] == "set":
+                kb = unhx(op["k"])
+                val = w.put("v", op["v"])
+                if pure and op["kdot"] and ident_safe(kb):
+                    lines.append({"js": "%s.%s = %s" % (expr, kb.decode(), val), "out": False})
+                else:
+                    if op["p"]:                               # a[k] = v needs a plain variable on the left
+                        a = fresh("a")
+                        lines.append({"js": "var %s = %s" % (a, expr), "out": False})
+                        expr = a
+                    lines.append({"js": "%s[%s] = %s" % (expr, w.put("k", t_str(kb)), val), "out": False})
+            else:
+                if op["nav"] and op["p"]:
+                    a = fresh("a")
+                    lines.append({"js": "var %s = %s" % (a, expr), "out": False})
+                    expr = a
+                arg = w.put("v", op["v"]) if op["o"] in ("push", "unshift") else (str(op["n"]) if op["o"] == "splice" else "")
+                # the result is bound, not written: only the JSON texts reach the output
+                lines.append({"js": "var %s = %s.%s(%s)" % (fresh("r"), expr, op["o"], arg), "out": False})
+    return lines
+
+
+def realise(plan):
+    """plan -> what the harness runs (w, tpls, engines, segs) and the abstract history for the judge (abs, nouts)"""
+    w = _W()
+    tpls = {}
+    for pi, prog in enumerate(plan["progs"]):
+        tpls["h%d" % pi] = js_of_program(prog, w)
+    segs, abs_steps, nouts = [], [], []
+    base = 0
+    for seg in plan["segs"]:
+        if seg["k"] == "api":
+            steps = []
+            for st in seg["steps"]:
+                g = {"i": st["i"], "v": st["v"], "u": st.get("u", 0)}
+                if st["i"] == "mut":
+                    o = st["op"]
+                    g["op"] = {"o": o["o"], "p": o["p"], "k": o.get("k", ""), "n": o.get("n", 0)}
+                    if "v" in o:
+                        g["op"]["v"] = o["v"]
+                steps.append(g)
+                abs_steps.append(st)
+            n = sum(1 for st in seg["steps"] if st["i"] == "out")
+            segs.append({"k": "api", "steps": steps, "n": n, "rebuild": seg["rebuild"]})
+        else:
+            prog = plan["progs"][seg["prog"]]
+            base += 100                                        # this render's variables: base + local number
+            abs_steps.append({"i": "conv", "v": base})
+            for st in prog:
+                g = dict(st, v=base + st["v"])
+                if "u" in st:
+                    g["u"] = base + st["u"]
+                abs_steps.append(g)
+            n = sum(1 for st in prog if st["i"] == "out")
+            segs.append({"k": "render", "e": seg["e"], "t": "h%d" % seg["prog"], "n": n, "rebuild": seg["rebuild"]})
+        nouts.append(n)
+    engines = 1 + max([s.get("e", 0) for s in segs] + [0])
+    return {"w": w.slots, "tpls": tpls, "engines": engines, "segs": segs}, abs_steps, nouts
+
+
+def coq_sel(s):
+    return b"(SKey " + cq_bytes(unhx(s["k"])) + b")" if "k" in s else b"(SIdx %d)" % s["i"]
+
+
+def coq_op(op):
+    o = op["o"]
+    if o == "set":
+        a = b"(ASet " + cq_bytes(unhx(op["k"])) + b" " + coq_of(op["v"]) + b")"
+    elif o == "push":
+        a = b"(APush " + coq_of(op["v"]) + b")"
+    elif o == "unshift":
+        a = b"(AUnshift " + coq_of(op["v"]) + b")"
+    elif o == "pop":
+        a = b"APop"
+    elif o == "shift":
+        a = b"AShift"
+    else:
+        a = b"(ASplice %d)" % op["n"]
+    return cq_pair(cq_list([coq_sel(s) for s in op["p"]]), a)
+
+
+def coq_steps(steps):
+    """variables renumbered densely in order of first binding (a nat literal is unary in Coq)"""
+    num = {}
+
+    def n(v):
+        return num.setdefault(v, len(num))
+    res = []
+    for st in steps:
+        if st["i"] == "conv":
+            res.append(b"HConv %d" % n(st["v"]))
+        elif st["i"] == "parse":
+            u = n(st["u"])
+            res.append(b"HParse %d %d" % (n(st["v"]), u))
+        elif st["i"] == "out":
+            res.append(b"HOut %d" % n(st["v"]))
+        else:
+            res.append(b"HMut %d " % n(st["v"]) + coq_op(st["op"]))
+    return cq_list(res)
+
+
+def hist_case(rng, tier):
+    """a JSON-shaped value (mostly containers, in the domain; a hostile share) and a history over it"""
+    r = rng.random()
+    theme = rng.choice(THEMES) if r > 0.9 else None
+    if r < 0.08:
+        d = gen_leaf(rng, None)
+    elif r < 0.16:
+        n = rng.randint(3, 12)
+        d = {"t": "nest", "v": {"n": n, "kind": rng.choice(["arr", "map"]), "leaf": gen_value(rng, 2, None, 3)}}
+    else:
+        d = gen_value(rng, rng.choice([1, 2, 2, 3, 4]), theme, rng.choice([3, 4, 6]))
+        if d["t"] not in ("arr", "map"):
+            d = t_map([(b"items", t_arr([d, gen_leaf(rng, None)])), (gen_key(rng, "dom"), gen_leaf(rng, None))])
+    plan = gen_plan(rng, d, theme == "upper")
+    assert plan_valid(plan, d)
+    return mk_hist_case(d, plan)
+
+
+def mk_hist_case(d, plan):
+    hist, abs_steps, nouts = realise(plan)
+    return {"data": d, "plan": plan, "hist": hist, "abs": abs_steps, "nouts": nouts}
+
+
+def hist_features(case):
+    """(mutations, outputs, mutate-then-read-again) of a history case"""
+    muts = sum(1 for st in case["abs"] if st["i"] == "mut")
+    outs = sum(1 for st in case["abs"] if st["i"] == "out")
+    seen_mut = False
+    pattern = False
+    for st in case["abs"]:
+        if st["i"] == "mut":
+            seen_mut = True
+        elif st["i"] in ("parse", "conv") and seen_mut:
+            pattern = True
+    return muts, outs, pattern
+
 # ---------------------------------------------------------------- the property
 
 
@@ -362,8 +801,27 @@ class C12(Prop):
     ]
     not_yet_proved = []
 
+    hist_share = 0.3
+
     def generate(self, rng, n, tier):
-        return [{"data": gen_case(rng, tier)} for _ in range(n)]
+        return [hist_case(rng, tier) if rng.random() < self.hist_share else {"data": gen_case(rng, tier)} for _ in range(n)]
+
+    def run(self, binary, cases, tmp, tier):
+        # plain cases share one harness process; every history case has a process of its own: what it observes is
+        # state that survives between calls, and neither a replay nor a shrink candidate may inherit another case's
+        obss = [None] * len(cases)
+        plain = [i for i, c in enumerate(cases) if "hist" not in c]
+        if plain:
+            for i, o in zip(plain, run_harness(binary, self.engine, [{"data": cases[i]["data"]} for i in plain])):
+                obss[i] = o
+        hist = [i for i, c in enumerate(cases) if "hist" in c]
+
+        def one(i):
+            return run_harness(binary, self.engine, [{"data": cases[i]["data"], "hist": cases[i]["hist"]}])[0]
+        with ThreadPoolExecutor(max_workers=16) as ex:
+            for i, o in zip(hist, ex.map(one, hist)):
+                obss[i] = o
+        return obss
 
     def emit(self, case, obs):
         # the direct text is bound once; the other texts name it when they are byte-identical (the usual case):
@@ -375,6 +833,19 @@ class C12(Prop):
                 return b"(Some t)"
             return opt_text(o)
         t = cq_bytes(unhx(d["out"])) if d["class"] == "ok" else b"[]"
+        steps, outs = b"[]", b"[]"
+        if "hist" in case:
+            steps = coq_steps(case["abs"])
+            texts = []
+            segobs = obs.get("hist") or []
+            for si, n in enumerate(case["nouts"]):
+                so = segobs[si] if si < len(segobs) else None
+                if so and so["class"] == "ok" and len(so.get("outs") or []) == n:
+                    for h in so.get("outs") or []:
+                        texts.append(b"(Some t)" if d["class"] == "ok" and h == d["out"] else cq_opt(cq_bytes(unhx(h))))
+                else:
+                    texts += [b"None"] * n          # the render failed / the Go caller panicked: nothing written
+            outs = cq_list(texts)
         return (b"(let t : bytes := " + t + b" in {| src := " + coq_of(case["data"]) +
                 b"; direct := " + (b"(Some t)" if d["class"] == "ok" else b"None") +
                 b"; raw := " + ref(obs["raw"]) +
@@ -382,14 +853,20 @@ class C12(Prop):
                 b"; esc := " + ref(obs["esc"]) +
                 b"; rt := " + ref(obs["rt"]) +
                 b"; reparse := " + ref(obs["reparse"]) +
-                b"; decoded_equal := " + cq_bool(obs["decoded_equal"]) + b" |})")
+                b"; decoded_equal := " + cq_bool(obs["decoded_equal"]) +
+                b"; steps := " + steps + b"; outs := " + outs + b" |})")
 
     def model_expr(self):
         return ("(option_map string_of_list_ascii (Some (stringify_data (src c))), dom_C12 (src c), modelled (src c), "
-                "decode (match direct c with Some t => t | None => [] end), json_of (src c))")
+                "decode (match direct c with Some t => t | None => [] end), json_of (src c), "
+                "map (option_map string_of_list_ascii) (run_data (src c) (steps c)), pristine_run (steps c) [], "
+                "steps_fit (steps c) [] (json_of (src c)), steps_dom (steps c))")
 
     def nontrivial(self, case, obs):
         v = case["data"]
+        if "hist" in case:
+            muts, outs, pattern = hist_features(case)
+            return muts > 0 and outs > 1
         if v["t"] in ("arr", "map", "nest"):
             return True
         if v["t"] == "str":
@@ -403,16 +880,79 @@ class C12(Prop):
         txt = unhx(obs["direct"]["out"]).decode("utf-8", "replace") if obs["direct"]["class"] == "ok" else None
         p = plain(case["data"])
         s = json.dumps(p, ensure_ascii=True)
-        return {"data": p if len(s) < 400 else s[:400] + "...", "go_text": txt if txt is None or len(txt) < 400 else txt[:400] + "...",
-                "decoded_equal": obs["decoded_equal"], "parsed_kind": obs.get("parsed_kind")}
+        res = {"data": p if len(s) < 400 else s[:400] + "...", "go_text": txt if txt is None or len(txt) < 400 else txt[:400] + "...",
+               "decoded_equal": obs["decoded_equal"], "parsed_kind": obs.get("parsed_kind")}
+        if "hist" in case:
+            res["history"] = {"templates": {k: [l["js"] for l in v] for k, v in case["hist"]["tpls"].items()},
+                              "segments": [(g["k"], g.get("e"), g.get("t"), g["rebuild"]) for g in case["hist"]["segs"]],
+                              "go_wrote": [[unhx(h).decode("utf-8", "replace")[:200] for h in (so.get("outs") or [])]
+                                           for so in (obs.get("hist") or [])]}
+        return res
 
     def shrink(self, case):
         v = case["data"]
+        if "hist" in case:
+            yield from self._shrink_hist(case)
+            return
         if v["t"] == "nest":
             yield {"data": expand(v)}
             return
         for c in self._shrink(v):
             yield {"data": c}
+
+    def _shrink_hist(self, case):
+        d, plan = case["data"], case["plan"]
+
+        def cand(d2, plan2):
+            # drop templates nobody renders any more, keep the numbering dense
+            used = sorted({g["prog"] for g in plan2["segs"] if g["k"] == "render"})
+            ren = {old: new for new, old in enumerate(used)}
+            p3 = {"progs": [plan2["progs"][i] for i in used],
+                  "segs": [dict(g, prog=ren[g["prog"]]) if g["k"] == "render" else g for g in plan2["segs"]]}
+            if p3["segs"] and plan_valid(p3, d2):
+                return mk_hist_case(d2, p3)
+            return None
+        out = []
+        segs = plan["segs"]
+        for i in range(len(segs)):                                  # one segment less
+            out.append(cand(d, dict(plan, segs=segs[:i] + segs[i + 1:])))
+        for i, g in enumerate(segs):                                # plainer segments
+            for key, val in (("rebuild", False), ("e", 0)):
+                if g.get(key):
+                    out.append(cand(d, dict(plan, segs=segs[:i] + [dict(g, **{key: val})] + segs[i + 1:])))
+
+        def fewer(steps):
+            for j, st in enumerate(steps):
+                if st["i"] in ("mut", "out"):
+                    yield steps[:j] + steps[j + 1:]
+                elif st["i"] == "parse":                            # a variable and everything done with it
+                    dead = {st["v"]}
+                    keep = []
+                    for s2 in steps:
+                        if s2["v"] in dead or (s2["i"] == "parse" and s2["u"] in dead):
+                            dead.add(s2["v"])
+                        else:
+                            keep.append(s2)
+                    yield keep
+            for j, st in enumerate(steps):                          # a mutation nearer to the root / of a smaller value
+                if st["i"] == "mut":
+                    op = st["op"]
+                    if "v" in op:
+                        for y in list(self._shrink(op["v"]))[:6]:
+                            yield steps[:j] + [dict(st, op=dict(op, v=y))] + steps[j + 1:]
+        for pi, prog in enumerate(plan["progs"]):
+            for p2 in fewer(prog):
+                out.append(cand(d, dict(plan, progs=plan["progs"][:pi] + [p2] + plan["progs"][pi + 1:])))
+        for i, g in enumerate(segs):
+            if g["k"] == "api":
+                for s2 in fewer(g["steps"]):
+                    out.append(cand(d, dict(plan, segs=segs[:i] + [dict(g, steps=s2)] + segs[i + 1:])))
+        dd = expand(d) if d["t"] == "nest" else d
+        for d2 in list(self._shrink(dd))[:60]:                      # smaller data (the plan must still fit it)
+            out.append(cand(d2, plan))
+        for c in out:
+            if c is not None:
+                yield c
 
     def _shrink(self, v):
         t = v["t"]
@@ -471,8 +1011,32 @@ class C12(Prop):
              "strings_needing_escape": 0, "with_ls_ps": 0, "with_astral": 0, "with_control": 0, "with_NUL": 0,
              "invalid_utf8": 0, "upper_initial_key": 0, "nonascii_initial_key": 0, "empty_key": 0,
              "int_abs>=2^52": 0, "int_abs>2^53": 0, "fraction_or_far_number": 0, "empty_array": 0, "empty_object": 0,
-             "nil_slice_or_map": 0, "go_decoded_equal": 0, "go_stringify_failed": 0, "parsed_kind": {}}
+             "nil_slice_or_map": 0, "go_decoded_equal": 0, "go_stringify_failed": 0, "parsed_kind": {},
+             "histories": {"cases": 0, "segments": {"render": 0, "api": 0}, "second_engine": 0, "template_rendered_again": 0,
+                           "page_data_rebuilt": 0, "mutations": {}, "mutation_depth": {}, "mutated_page_data_itself": 0,
+                           "mutation_then_parse_again": 0, "steps": {"conv": 0, "parse": 0, "mut": 0, "out": 0},
+                           "parse_of_text_given_as_string": 0, "go_segment_failed": 0}}
         for c, o in zip(cases, obss):
+            if "hist" in c:
+                h = d["histories"]
+                h["cases"] += 1
+                progs = [g["prog"] for g in c["plan"]["segs"] if g["k"] == "render"]
+                for g in c["plan"]["segs"]:
+                    h["segments"][g["k"]] += 1
+                h["second_engine"] += any(g.get("e") for g in c["plan"]["segs"])
+                h["template_rendered_again"] += len(progs) != len(set(progs))
+                h["page_data_rebuilt"] += any(g["rebuild"] for g in c["plan"]["segs"])
+                xs = {st["v"] for st in c["abs"] if st["i"] == "conv"}
+                for st in c["abs"]:
+                    h["steps"][st["i"]] += 1
+                    if st["i"] == "mut":
+                        h["mutations"][st["op"]["o"]] = h["mutations"].get(st["op"]["o"], 0) + 1
+                        k = str(len(st["op"]["p"]))
+                        h["mutation_depth"][k] = h["mutation_depth"].get(k, 0) + 1
+                h["mutated_page_data_itself"] += any(st["i"] == "mut" and st["v"] in xs for st in c["abs"])
+                h["mutation_then_parse_again"] += hist_features(c)[2]
+                h["parse_of_text_given_as_string"] += any("JSON.parse(w.t)" in l["js"] for t in c["hist"]["tpls"].values() for l in t)
+                h["go_segment_failed"] += any(so["class"] != "ok" for so in (o.get("hist") or []))
             v = expand(c["data"])
             d["top"][c["data"]["t"]] = d["top"].get(c["data"]["t"], 0) + 1
             dp = depth(c["data"])
